@@ -181,6 +181,26 @@ func descriptorShapes() []shapeCase {
 			return f
 		})
 	}
+	for _, sp := range []string{"first", "last", "only"} {
+		sp := sp
+		mk("streaming-rpc/"+sp, func(pkg string) *spec.File {
+			f := &spec.File{Messages: []*spec.Message{plain("Req"), plain("Resp")}}
+			svc := &spec.Service{Name: "StreamService", BasePath: spec.S("/st")}
+			un := &spec.Method{Name: "Unary", In: "." + pkg + ".Req", Out: "." + pkg + ".Resp", HTTP: &spec.HTTP{Path: "/u", Verb: 2}}
+			st := &spec.Method{Name: "Tail", In: "." + pkg + ".Req", Out: "." + pkg + ".Resp", HTTP: &spec.HTTP{Path: "/t", Verb: 2}, ServerStream: true}
+			bi := &spec.Method{Name: "Chat", In: "." + pkg + ".Req", Out: "." + pkg + ".Resp", ClientStream: true, ServerStream: true}
+			switch sp {
+			case "first":
+				svc.Methods = []*spec.Method{st, bi, un}
+			case "last":
+				svc.Methods = []*spec.Method{un, st, bi}
+			default:
+				svc.Methods = []*spec.Method{st, bi}
+			}
+			f.Services = []*spec.Service{svc}
+			return f
+		})
+	}
 	// message names that coincide with names the generators use themselves (built-in OpenAPI components, emitted
 	// TypeScript and Go declarations, JavaScript globals), as request/response, as a field type and nested
 	for _, tn := range []string{"Error", "ValidationError", "FieldViolation", "ApiError", "Timestamp", "Empty", "Any", "Object", "Record", "Response", "Request", "Headers", "Date", "Map", "Promise", "Client", "Server", "Options", "Item_text"} {
